@@ -814,9 +814,36 @@ func parent(c *Check, tier string) int {
 						}
 					}
 				} else {
+					// A crash is believed only if the case crashes again when run
+					// alone in a fresh process (up to 3 tries): a failure that the
+					// same input does not reproduce is not a decided violation.
 					stderr := errb.String()
-					co.Violations = append(co.Violations, Violation{Class: crashClass(stderr), Msg: "process crashed: " + tail(stderr, 3000), Idx: curCase})
-					co.Outcomes["crash"]++
+					var okRes *Result
+					reproduced := false
+					for try := 0; try < 3 && !reproduced; try++ {
+						r2, stderr2, to2 := runSingle(c, tier, curCase, 3*caseTimeout)
+						if r2 == nil || to2 {
+							reproduced = true
+							if r2 == nil && stderr2 != "" {
+								stderr = stderr2
+							}
+						} else {
+							okRes = r2
+						}
+					}
+					if reproduced {
+						co.Violations = append(co.Violations, Violation{Class: crashClass(stderr), Msg: "process crashed: " + tail(stderr, 3000), Idx: curCase})
+						co.Outcomes["crash"]++
+					} else {
+						fmt.Printf("UNREPRODUCED-CRASH (worker died in case %d, 3 isolated re-runs of the case completed; not reported): %s\n", curCase, crashClass(stderr))
+						keys := map[uint64]struct{}{}
+						co.Cases, co.Evals = 0, 0
+						co.add(okRes, keys, false)
+						for kk := range keys {
+							co.Keys = append(co.Keys, kk)
+						}
+						co.Counters["worker_crashes_not_reproduced_by_the_case_alone"]++
+					}
 				}
 				mu.Lock()
 				a.merge(&co)
